@@ -13,7 +13,7 @@ def sh(cmd, **kw):
 
 def main():
   a = sys.argv[1:]
-  src, sid, prop = a[0], a[1], a[2]
+  src, sid, prop = os.path.realpath(a[0]), a[1], a[2]
   tier = "quick"
   rest = a[3:]
   if rest[:1] == ["--tier"]:
@@ -61,10 +61,11 @@ def main():
         meta["checks"][c]["error"] = (r.stdout[-800:] + r.stderr[-800:])
     out = os.path.join("/verif/seeded", sid)
     os.makedirs(out, exist_ok=True)
-    shutil.copy2(patch, os.path.join(out, "patch.diff"))
-    shutil.copy2(demo, os.path.join(out, "demo.py"))
-    if os.path.exists(os.path.join(src, "notes.md")):
-      shutil.copy2(os.path.join(src, "notes.md"), os.path.join(out, "notes.md"))
+    if os.path.realpath(out) != src:
+      shutil.copy2(patch, os.path.join(out, "patch.diff"))
+      shutil.copy2(demo, os.path.join(out, "demo.py"))
+      if os.path.exists(os.path.join(src, "notes.md")):
+        shutil.copy2(os.path.join(src, "notes.md"), os.path.join(out, "notes.md"))
     old = {}
     mp = os.path.join(out, "meta.json")
     if os.path.exists(mp):
